@@ -17,11 +17,14 @@
     2  C03
          (5) `C03_layerB_only_these_remove_partial` (every state), `…_step` / `…_reach` (+ the evicting put is not a put
              of `k`), `C03_layerB_eviction_under_pressure` (along any run: the evicting put did not fit).
-             The clause "the removed entry carries the id being evicted" is FALSE of the model:
-             `C03_layerB_remove_id_counterexample` (sweeper), `C03_layerB_evict_id_counterexample` (worker's eviction),
-             `C03_layerB_only_these_remove_false`.  The delete hook of an eviction is `store.delete(&key)`: it removes
-             whatever entry the KEY has.  No relation between the two ids holds (ids are drawn before the commands are
-             sent, so not even `evicted id ≤ removed id`).
+             The clause "the removed entry carries the id being evicted" HOLDS for the sweeper (its delete hook is
+             `delete_if_key_id_matches`, `applyEvictId`): `C03_layerB_sweeper_removes_own_id`,
+             `C03_layerB_only_these_remove_sweeper_id`, and the race that used to refute it now keeps the new
+             incarnation (`C03_layerB_remove_id_race_keeps`).  It is FALSE for the worker's eviction, whose delete hook
+             is still `store.delete(&key)` and removes whatever entry the KEY has:
+             `C03_layerB_evict_id_counterexample` (the stale charge it needs is left by `shutdown()`'s two-step clear),
+             `C03_layerB_only_these_remove_false`.  No relation between the two ids holds (ids are drawn before the
+             commands are sent, so not even `evicted id ≤ removed id`).
          (6) `C03_layerB_only_these_alter` (`…_reach`)
          (7) `touches`, `Quiet`, `C03_layerB_quiet_run_retains` (`…'` from any state satisfying `WAbsent`);
              `creates`, `Still`, `C03_layerB_still_run_same` (no invariant at all); `quietRun` (executable check)
@@ -67,9 +70,11 @@ inductive StoreEff (b : BState) : Act → BState → Prop where
   /-- the worker's `store.remove` inside an eviction (the delete hook of `CacheWeight::delete`) -/
   | evict (c : PutCmd) (inc : Nat) (s : List SKey) (id : Nat) (wk : WKey) (b' : BState) :
       b.w = .evStore c inc s id wk → b'.g.store = b.g.store.del wk.key → StoreEff b .worker b'
-  /-- the sweeper's `store.remove` (the same delete hook) -/
+  /-- the sweeper's `store.remove` (the ticker's delete hook `delete_if_key_id_matches`) that finds the key stored under
+      the id it is evicting (otherwise it leaves the store alone: `same`) -/
   | sweep (v : Option Nat) (now sh : Nat) (rest : List (Nat × Nat)) (id : Nat) (wk : WKey) (b' : BState) :
-      b.sw = .store now sh rest id wk → b'.g.store = b.g.store.del wk.key → StoreEff b (.sweeper v) b'
+      b.sw = .store now sh rest id wk → b'.g.store = b.g.store.del wk.key →
+      (∃ en, b.g.store.get? wk.key = some en ∧ en.id = id) → StoreEff b (.sweeper v) b'
   /-- a client's `delete.mark` that finds the key -/
   | mark (i k : Nat) (e : Entry) (b' : BState) : b.cl[i]? = some (.delMark k) → b.g.store.get? k = some e →
       b'.g.store = b.g.store.set k { e with soft := true } → StoreEff b (.client i) b'
@@ -202,7 +207,9 @@ theorem ent_sweeperAct_storeEff {b b' : BState} {v : Option Nat} (h : sweeperAct
   have ht := sweeperAct_trans h
   cases ht
   case store now sh rest id wk hs _ =>
-    exact .sweep v now sh rest id wk _ hs (by simp [sweepNext_g, applyEvict_store])
+    rcases Cached.applyEvictId_store_cases b.g (id, wk.key, wk.weight) with ⟨hm, hst⟩ | ⟨_, hst⟩
+    · exact .sweep v now sh rest id wk _ hs (by simp only [sweepNext_g]; exact hst) (Cached.evictIdMatches_iff.mp hm)
+    · exact .same _ _ (by simp only [sweepNext_g]; exact hst)
   all_goals exact .same _ _ (by simp [sweepNext_g])
 
 /-! ### the clients -/
@@ -356,7 +363,7 @@ theorem StoreEff.noCreate {b b' : BState} {a : Act} (h : StoreEff b a b') (hn : 
   case put c exp hw _ _ hs => exact absurd hw (hn rfl c)
   case del k' hh e hw he hs => rw [hs, AMap.get?_del]; split <;> simp [hk]
   case evict c inc s id wk hw hs => rw [hs, AMap.get?_del]; split <;> simp [hk]
-  case sweep v now sh rest id wk hw hs => rw [hs, AMap.get?_del]; split <;> simp [hk]
+  case sweep v now sh rest id wk hw hm hs => rw [hs, AMap.get?_del]; split <;> simp [hk]
   case mark i k' e hpc he hs =>
     rw [hs, AMap.get?_set]; split
     · rename_i hkk; subst hkk; rw [hk] at he; cases he
@@ -507,7 +514,7 @@ theorem C07_layerB_id_never_replaced {b b' : BState} {a : Act} {o o' : Oracle} (
     rw [hs, AMap.get?_del] at hk'; split at hk'
     · cases hk'
     · rw [hk] at hk'; cases hk'; rfl
-  case sweep v now sh rest id wk hw hs =>
+  case sweep v now sh rest id wk hw hm hs =>
     rw [hs, AMap.get?_del] at hk'; split at hk'
     · cases hk'
     · rw [hk] at hk'; cases hk'; rfl
@@ -645,7 +652,8 @@ theorem C07_layerB_only_worker_creates {b b' : BState} {a : Act} {o o' : Oracle}
     * the sweeper's `store.remove` of a charge `wk` whose key is `k`,
     * `shutdown()`'s `store.clear`.
     Named `_partial` because the requested clause "the removed entry carries the id the sweeper / the eviction is
-    removing" is FALSE of the model: `C03_layerB_remove_id_counterexample` below.  What is known about the evicting put
+    removing" is FALSE of the model for the worker's eviction: `C03_layerB_evict_id_counterexample` below (for the
+    sweeper it holds: `C03_layerB_only_these_remove_sweeper_id`).  What is known about the evicting put
     (it is not a put of `k`; it did not fit) is in `C03_layerB_only_these_remove_reach` and
     `C03_layerB_eviction_under_pressure`. -/
 theorem C03_layerB_only_these_remove_partial {b b' : BState} {a : Act} {o o' : Oracle} {k : Nat} {e : Entry}
@@ -669,7 +677,7 @@ theorem C03_layerB_only_these_remove_partial {b b' : BState} {a : Act} {o o' : O
     rw [hs, AMap.get?_del] at hk'; split at hk'
     · rename_i hkk; exact Or.inr (Or.inl ⟨rfl, c, inc, s, id, wk, hw, hkk⟩)
     · rw [hk] at hk'; cases hk'
-  case sweep v now sh rest id wk hw hs =>
+  case sweep v now sh rest id wk hw hm hs =>
     rw [hs, AMap.get?_del] at hk'; split at hk'
     · rename_i hkk; exact Or.inr (Or.inr (Or.inl ⟨v, now, sh, rest, id, wk, rfl, hw, hkk⟩))
     · rw [hk] at hk'; cases hk'
@@ -739,7 +747,7 @@ theorem C03_layerB_only_these_alter {b b' : BState} {a : Act} {o o' : Oracle} {k
     rw [hs, AMap.get?_del] at hk'; split at hk'
     · cases hk'
     · rw [hk] at hk'; cases hk'; exact absurd rfl hne
-  case sweep v now sh rest id wk hw hs =>
+  case sweep v now sh rest id wk hw hm hs =>
     rw [hs, AMap.get?_del] at hk'; split at hk'
     · cases hk'
     · rw [hk] at hk'; cases hk'; exact absurd rfl hne
@@ -831,7 +839,7 @@ theorem C03_layerB_quiet_step_same {b b' : BState} {a : Act} {o o' : Oracle} {k 
     rw [hs, AMap.get?_del]; split
     · rename_i hkk; simp [touches, hw, hkk] at hq
     · rfl
-  case sweep v now sh rest id wk hw hs =>
+  case sweep v now sh rest id wk hw hm hs =>
     rw [hs, AMap.get?_del]; split
     · rename_i hkk; simp [touches, hw, hkk] at hq
     · rfl
@@ -1213,37 +1221,82 @@ theorem C07_layerB_race_reachable :
     obtain ⟨b, hr, hw, hk, hrest⟩ := hrun
     exact ⟨b, _, ent_reach_run hr, hw, rfl, rfl, hk, hrest⟩
 
-/-- **The counterexample to the id clause of C03 (5)** (the run is `swB_raceRun` of Sweep.lean, where the same race
-    refutes a clause of C10).  Key 1 (id 1, deadline 5) expires; the sweeper takes its index entry and its charge out and
-    stands before `wu.sub`.  `put_or_update(1, remove_time_to_live)` of client 0 takes the deadline out of the STORED
-    value (its `ttl.delete` then waits for the shard lock).  `delete(1)` of client 1: the worker removes the stored
-    entry, finds no charge and — no deadline in the stored value — no index entry to delete: it is not held up by the
-    shard lock.  `put(1)` of client 1 is taken in under id 2.  The sweeper now stands at `store.remove` for id 1. -/
+/-- **The race that used to refute the id clause of C03 (5) for the SWEEPER** (the run is `swB_raceRun` of Sweep.lean).
+    Key 1 (id 1, deadline 5) expires; the sweeper takes its index entry and its charge out and stands before `wu.sub`.
+    `put_or_update(1, remove_time_to_live)` of client 0 takes the deadline out of the STORED value (its `ttl.delete`
+    then waits for the shard lock).  `delete(1)` of client 1: the worker removes the stored entry, finds no charge and
+    — no deadline in the stored value — no index entry to delete: it is not held up by the shard lock.  `put(1)` of
+    client 1 is taken in under id 2.  The sweeper now stands at `store.remove` for id 1.  With the old delete hook
+    `store.delete(&key)` it removed the entry stored under id 2 (the former `C03_layerB_remove_id_counterexample`);
+    the ticker's hook is now `delete_if_key_id_matches` (`applyEvictId`): the entry stays. -/
 def removeRace : List (Act × Oracle) :=
   call 0 (.putW 1 100 3 (some 5)) 4 ++ workerN 7 ++
   [(.advance 10, noO), (.sweeper none, noO), (.sweeper (some 1), noO), (.sweeper none, noO)] ++
   call 0 (.upsert 1 none (some 3) none true) 3 ++ call 1 (.delete 1) 3 ++ workerN 3 ++
   call 1 (.putW 1 111 4 none) 4 ++ workerN 6 ++ [(.sweeper none, noO)]
 
-/-- the sweeper's `store.remove` of the eviction of id 1 removes the entry of key 1 stored under id 2 -/
-theorem C03_layerB_remove_id_counterexample :
+/-- the sweeper's `store.remove` of the eviction of id 1 KEEPS the entry of key 1 stored under id 2 (the old hook,
+    applied to the same state, would remove it) -/
+theorem C03_layerB_remove_id_race_keeps :
     ∃ b b', Reach cfgEx 0 [1, 2, 3, 4] 2 b ∧ stepB b (.sweeper none) noO = .ok (b', noO) ∧
       b.sw = .store 10 0 [] 1 ⟨1, 1, 3⟩ ∧ b.g.store.get? 1 = some ⟨111, 2, none, false⟩ ∧
-      b'.g.store.get? 1 = none := by
+      b'.g.store.get? 1 = some ⟨111, 2, none, false⟩ ∧ (applyEvict b.g (1, 1, 3)).store.get? 1 = none := by
   have hrun : ∃ b, runB entInit removeRace = .ok b ∧ ∃ b', stepB b (.sweeper none) noO = .ok (b', noO) ∧
       b.sw = .store 10 0 [] 1 ⟨1, 1, 3⟩ ∧ b.g.store.get? 1 = some ⟨111, 2, none, false⟩ ∧
-      b'.g.store.get? 1 = none := by
+      b'.g.store.get? 1 = some ⟨111, 2, none, false⟩ ∧ (applyEvict b.g (1, 1, 3)).store.get? 1 = none := by
     refine ⟨_, rfl, _, rfl, rfl, ?_⟩
     decide
   obtain ⟨b, hr, b', hs, hrest⟩ := hrun
   exact ⟨b, b', ent_reach_run hr, hs, hrest⟩
 
-/-- … and the story goes on to the worker's evictions: the charge of id 2 stays behind without a stored entry; key 1
-    is put a third time (id 3); a put of key 2 with weight 8 does not fit, the worker picks the stale charge of id 2 as
-    the victim and its `store.remove` removes the entry of key 1 stored under id 3. -/
+/-- **The id clause of C03 (5) for the sweeper, in EVERY state**: a sweeper action that removes the entry `e` of `k`
+    is the `store.remove` of the eviction of the very id `e` carries, charged for `k`. -/
+theorem C03_layerB_sweeper_removes_own_id {b b' : BState} {v : Option Nat} {o o' : Oracle} {k : Nat} {e : Entry}
+    (h : stepB b (.sweeper v) o = .ok (b', o')) (hk : b.g.store.get? k = some e)
+    (hk' : b'.g.store.get? k = none) :
+    ∃ now sh rest id wk, b.sw = .store now sh rest id wk ∧ wk.key = k ∧ e.id = id := by
+  have he := stepB_storeEff h
+  cases he
+  case same hs => rw [hs, hk] at hk'; cases hk'
+  case sweep now sh rest id wk hw hm hs =>
+    rw [hs, AMap.get?_del] at hk'; split at hk'
+    · rename_i hkk
+      obtain ⟨en, hen, hid⟩ := hm
+      rw [hkk, hk] at hen; cases hen
+      exact ⟨now, sh, rest, id, wk, hw, hkk, hid⟩
+    · rw [hk] at hk'; cases hk'
+
+/-- C03 (5) with the id clause for the sweeper (every action, every state); for the worker's eviction the clause
+    stays false: `C03_layerB_evict_id_counterexample`. -/
+theorem C03_layerB_only_these_remove_sweeper_id {b b' : BState} {a : Act} {o o' : Oracle} {k : Nat} {e : Entry}
+    (h : stepB b a o = .ok (b', o')) (hk : b.g.store.get? k = some e) (hk' : b'.g.store.get? k = none) :
+    (a = .worker ∧ ∃ hh, b.w = .delStore k hh) ∨
+    (a = .worker ∧ ∃ c inc s id wk, b.w = .evStore c inc s id wk ∧ wk.key = k) ∨
+    (∃ v now sh rest id wk, a = .sweeper v ∧ b.sw = .store now sh rest id wk ∧ wk.key = k ∧ e.id = id) ∨
+    (∃ i, a = .client i ∧ b.cl[i]? = some .shutStoreClear) := by
+  rcases C03_layerB_only_these_remove_partial h hk hk' with h1 | h2 | ⟨v, now, sh, rest, id, wk, rfl, hw, hkk⟩ | h4
+  · exact Or.inl h1
+  · exact Or.inr (Or.inl h2)
+  · obtain ⟨now', sh', rest', id', wk', hw', _, hid⟩ := C03_layerB_sweeper_removes_own_id h hk hk'
+    rw [hw] at hw'; cases hw'
+    exact Or.inr (Or.inr (Or.inl ⟨v, now, sh, rest, id, wk, rfl, hw, hkk, hid⟩))
+  · exact Or.inr (Or.inr (Or.inr h4))
+
+/-- **The counterexample to the id clause of C03 (5) for the WORKER's eviction** (its delete hook is still
+    `store.delete(&key)`, `applyEvict`).  A stale charge is needed — a charged id whose key is stored under another id.
+    The sweeper no longer leaves one behind; `shutdown()` does, because it clears the store and the ledger in two
+    separate actions while the worker goes on with the commands queued before `Shutdown`:
+    id 1 is used up by a put that is too heavy; clients 0 and 1 race `put(1)` (both pass the caller-side check: ids 2
+    and 3), client 0 then sends `put(2)` of weight 8 (id 4); the worker stores key 1 under id 2 (charge 4); client 1
+    runs `shutdown()` up to and including `store.clear` (the ledger is not cleared yet); the worker's re-check for
+    id 3 finds key 1 absent and stores it under id 3 (charge 3); the put of key 2 does not fit, the worker picks the
+    stale charge of id 2 as the victim and its `store.remove` removes the entry of key 1 stored under id 3. -/
 def removeRaceEvict : List (Act × Oracle) :=
-  removeRace ++ [(.sweeper none, noO)] ++ call 1 (.putW 1 120 3 none) 4 ++ workerN 6 ++
-  call 1 (.putW 2 200 8 none) 4 ++
+  call 0 (.putW 9 0 11 none) 4 ++ workerN 2 ++
+  [(.issue 0 (.putW 1 111 4 none), noO), (.issue 1 (.putW 1 120 3 none), noO),
+   (.client 0, noO), (.client 1, noO), (.client 0, noO), (.client 1, noO),
+   (.client 0, noO), (.client 0, noO), (.client 1, noO), (.client 1, noO)] ++
+  call 0 (.putW 2 200 8 none) 4 ++ workerN 6 ++ call 1 .shutdown 7 ++ workerN 6 ++
   [(.worker, noO), (.worker, noO), (.worker, { dk := [false] }),
    (.worker, { dk := [false, false], ids := [2, 3], pops := [some 2] }), (.worker, noO), (.worker, noO)]
 
@@ -1252,15 +1305,16 @@ theorem C03_layerB_evict_id_counterexample :
       b.w = .evStore c inc s 2 ⟨1, 1, 4⟩ ∧ c.k = 2 ∧ b.g.store.get? 1 = some ⟨120, 3, none, false⟩ ∧
       b'.g.store.get? 1 = none := by
   have hrun : ∃ b, runB entInit removeRaceEvict = .ok b ∧ ∃ b', stepB b .worker noO = .ok (b', noO) ∧
-      b.w = .evStore ⟨4, 2, 8, 2, 200, none, some 4⟩ 0 [⟨3, 3, 0⟩] 2 ⟨1, 1, 4⟩ ∧
+      b.w = .evStore ⟨4, 2, 8, 2, 200, none, some 3⟩ 0 [⟨3, 3, 0⟩] 2 ⟨1, 1, 4⟩ ∧
       b.g.store.get? 1 = some ⟨120, 3, none, false⟩ ∧ b'.g.store.get? 1 = none := by
     refine ⟨_, rfl, _, rfl, rfl, ?_⟩
     decide
   obtain ⟨b, hr, b', hs, hw, hrest⟩ := hrun
   exact ⟨b, b', _, _, _, ent_reach_run hr, hs, hw, rfl, hrest⟩
 
-/-- hence C03 (5) WITH the id clause ("the sweeper / the eviction removes the entry that carries the id it is evicting")
-    is false of the model -/
+/-- hence C03 (5) WITH the id clause for both ("the sweeper / the eviction removes the entry that carries the id it is
+    evicting") is false of the model — because of the worker's eviction; for the sweeper alone the clause holds
+    (`C03_layerB_only_these_remove_sweeper_id`) -/
 theorem C03_layerB_only_these_remove_false :
     ¬ (∀ (b b' : BState) (a : Act) (o o' : Oracle) (k : Nat) (e : Entry),
         Reach cfgEx 0 [1, 2, 3, 4] 2 b → stepB b a o = .ok (b', o') → b.g.store.get? k = some e →
@@ -1270,26 +1324,28 @@ theorem C03_layerB_only_these_remove_false :
         (∃ v now sh rest id wk, a = .sweeper v ∧ b.sw = .store now sh rest id wk ∧ wk.key = k ∧ e.id = id) ∨
         (∃ i, a = .client i ∧ b.cl[i]? = some .shutStoreClear)) := by
   intro hall
-  obtain ⟨b, b', hr, hs, hsw, hk, hk'⟩ := C03_layerB_remove_id_counterexample
-  rcases hall b b' _ _ _ 1 _ hr hs hk hk' with ⟨ha, _⟩ | ⟨ha, _⟩ | ⟨v, now, sh, rest, id, wk, _, hsw', _, hid⟩ |
-    ⟨i, ha, _⟩
-  · cases ha
-  · cases ha
-  · rw [hsw] at hsw'
-    cases hsw'
+  obtain ⟨b, b', c, inc, s, hr, hs, hw, _, hk, hk'⟩ := C03_layerB_evict_id_counterexample
+  rcases hall b b' _ _ _ 1 _ hr hs hk hk' with ⟨_, hh, hw'⟩ | ⟨_, c', inc', s', id, wk, hw', _, hid⟩ |
+    ⟨v, now, sh, rest, id, wk, ha, _⟩ | ⟨i, ha, _⟩
+  · rw [hw] at hw'; cases hw'
+  · rw [hw] at hw'
+    cases hw'
     cases hid
   · cases ha
+  · cases ha
 
-/-- the true variant applies to the counterexample state: it is the sweeper's `store.remove` of a charge of key 1 -/
-example : ∃ b b' e, Reach cfgEx 0 [1, 2, 3, 4] 2 b ∧ stepB b (.sweeper none) noO = .ok (b', noO) ∧
+/-- the true variant applies to the counterexample state: it is the worker's `store.remove` of a charge of key 1, in
+    the eviction loop of a put of another key -/
+example : ∃ b b' e, Reach cfgEx 0 [1, 2, 3, 4] 2 b ∧ stepB b .worker noO = .ok (b', noO) ∧
     b.g.store.get? 1 = some e ∧ b'.g.store.get? 1 = none ∧
-    ∃ v now sh rest id wk, Act.sweeper none = .sweeper v ∧ b.sw = .store now sh rest id wk ∧ wk.key = 1 := by
-  obtain ⟨b, b', hr, hs, hsw, hk, hk'⟩ := C03_layerB_remove_id_counterexample
+    ∃ c inc s id wk, b.w = .evStore c inc s id wk ∧ wk.key = 1 ∧ c.k ≠ 1 := by
+  obtain ⟨b, b', c, inc, s, hr, hs, hw, _, hk, hk'⟩ := C03_layerB_evict_id_counterexample
   refine ⟨b, b', _, hr, hs, hk, hk', ?_⟩
-  rcases C03_layerB_only_these_remove_reach hr hs hk hk' with ⟨ha, _⟩ | ⟨ha, _⟩ | h3 | ⟨i, ha, _⟩
+  rcases C03_layerB_only_these_remove_reach hr hs hk hk' with ⟨_, hh, hw'⟩ | ⟨_, h2⟩ | ⟨v, now, sh, rest, id, wk, ha, _⟩ |
+    ⟨i, ha, _⟩
+  · rw [hw] at hw'; cases hw'
+  · exact h2
   · cases ha
-  · cases ha
-  · exact h3
   · cases ha
 
 /-- **Non-vacuity of C03 (5):** each of the four removers removes key 1 (id 1):
